@@ -36,9 +36,10 @@ def main():
             sub = {"xixi_kv": ".", "xixi_kv_test": "."}.get(pkg, pkg.replace("_test", ""))
             tests = re.findall(r"^func (Test\w+)\(", src, re.M)
             pat = "|".join(tests)
+            race = "-race " if re.search(r"^//go:build .*\brace\b", src, re.M) else ""
             for name, root in (("with_change", mut), ("without_change", clean)):
                 shutil.copy(f"{seed}/{demo}", f"{root}/{sub}/zz_seed_{demo}")
-                rc, o = sh(f"go test -vet=off -count=1 -run '^({pat})$' ./{sub}", cwd=root, timeout=900)
+                rc, o = sh(f"go test {race}-vet=off -count=1 -run '^({pat})$' ./{sub}", cwd=root, timeout=900)
                 os.remove(f"{root}/{sub}/zz_seed_{demo}")
                 out["demo"][name] = "pass" if rc == 0 else "FAIL"
                 if name == "with_change" and rc == 0:
